@@ -234,6 +234,8 @@ func genBlocking() {
 	b.WriteString("def teardown : List String := [" + strings.Join(teardownOrder(f), ", ") + "]\n")
 	b.WriteString("/-- peer.Run: the defer that closes peer.Done is registered before the first return statement of Run -/\n")
 	b.WriteString(fmt.Sprintf("def peerDoneDeferBeforeReturns : Bool := %v\n", peerDoneDeferFirst(files["peer/peer.go"])))
+	b.WriteString("/-- peer.Run: `close(peer.Done)` is the FIRST statement of that deferred block (nothing that can return or block precedes it) -/\n")
+	b.WriteString(fmt.Sprintf("def peerDoneCloseFirst : Bool := %v\n", peerDoneCloseFirst(files["peer/peer.go"])))
 	b.WriteString("end Storrent.Gen\n")
 	writeIfChanged("Blocking.lean", b.String())
 }
@@ -323,6 +325,34 @@ func peerDoneDeferFirst(f *ast.File) bool {
 	}
 	ast.Inspect(fd.Body, walk)
 	return ok
+}
+
+// peerDoneCloseFirst: the deferred function literal of peer.Run that closes peer.Done does
+// so in its first statement.
+func peerDoneCloseFirst(f *ast.File) bool {
+	fd := findFunc(f, "Run")
+	if fd == nil {
+		return false
+	}
+	n := 0
+	ok := false
+	for _, st := range fd.Body.List {
+		d, isDefer := st.(*ast.DeferStmt)
+		if !isDefer {
+			continue
+		}
+		fl, isLit := d.Call.Fun.(*ast.FuncLit)
+		if !isLit || !strings.Contains(src(fl.Body), "close(peer.Done)") {
+			continue
+		}
+		n++
+		if len(fl.Body.List) > 0 {
+			if es, isExpr := fl.Body.List[0].(*ast.ExprStmt); isExpr && src(es.X) == "close(peer.Done)" {
+				ok = true
+			}
+		}
+	}
+	return n == 1 && ok
 }
 
 func init() { extraGens = append(extraGens, genBlocking) }
